@@ -167,11 +167,13 @@ def run(ck, fb, fbd):
             continue
         if f.name == "vector":
             ng += 1
-            need_names(f, ["e"], None, "C19.geom")
+            from .canon import Canon
+            cn = Canon(f)
             rets = [x for b, i, x in f.tops() if x.get("k") == "ret"]
-            s = estr(rets[0]) if rets else ""
-            ok = "vertex(e.to_vertex()) - vertex(e.from_vertex())" in s
-            (ck.ok if ok else lambda r, w, t: ck.violate(r, w, t, "C19.geom:vector"))("C19.geom", f.where, "vector() = position(to) - position(from)")
+            s = cn.s(rets[0].get("x")) if rets else ""
+            acc = "halfedge" if "HEH" in f.d["params"][0]["t"] else "edge"
+            ok = s == "(vertex(%s(P0).to_vertex()) - vertex(%s(P0).from_vertex()))" % (acc, acc)
+            (ck.ok if ok else lambda r, w, t: ck.violate(r, w, t, "C19.geom:vector"))("C19.geom", f.where, "vector() = position(to) - position(from) of the given (half)edge (%s)" % s[:80])
         if f.name == "barycenter":
             ng += 1
             pt = f.d["params"][0]["t"]
@@ -192,10 +194,34 @@ def run(ck, fb, fbd):
                 (ck.ok if ok else lambda r, w, t: ck.violate(r, w, t, "C19.geom:barycenter_%s" % ("face" if "FH" in pt else "cell")))("C19.geom", f.where, "barycenter(%s) averages the positions delivered by %s (each vertex once) and divides by their number" % ("face" if "FH" in pt else "cell", circ))
         if f.name == "normal":
             ng += 1
-            need_names(f, ["p1", "p2", "p3"], None, "C19.geom")
-            txt = " ".join(estr(x) for b, i, x in f.tops())
-            ok = "(p2 - p1).cross((p3 - p2))" in txt.replace("this.", "") and "normalized()" in txt
-            (ck.ok if ok else lambda r, w, t: ck.violate(r, w, t, "C19.geom:normal"))("C19.geom", f.where, "normal() = ((p2-p1) x (p3-p2)).normalized()")
+            from .canon import Canon
+            cn = Canon(f)
+            rets = [(b, i, x) for b, i, x in f.tops() if x.get("k") == "ret" and b in f.reach()]
+            # the non-degenerate return: ((p2 - p1) x (p3 - p2)).normalized() with p1 = from(h0), p2 = to(h0), p3 = to(h1), where h0 and h1
+            # are read through ONE iterator over halfface(P0).halfedges() before resp. after its single increment
+            main = [(b, i, x) for b, i, x in rets if "normalized()" in cn.s(x.get("x"))]
+            ok = len(main) == 1
+            why = "%d normalising return(s)" % len(main)
+            if ok:
+                s = cn.s(main[0][2].get("x"))
+                m = re.fullmatch(r"\(vertex\(halfedge\(\*(it\d+)\((.*)\)\)\.to_vertex\(\)\) - vertex\(halfedge\(\*\1\(\2\)\)\.from_vertex\(\)\)\)\.cross\(\(vertex\(halfedge\(\*\1\(\2\)\)\.to_vertex\(\)\) - vertex\(halfedge\(\*\1\(\2\)\)\.to_vertex\(\)\)\)\)\.normalized\(\)", s)
+                ok = bool(m) and m.group(2) == "halfface(P0).halfedges().begin()"
+                why = s[:120]
+                if ok:
+                    # positions relative to the increment
+                    itv = [vid for vid, nm in cn._name.items() if nm == m.group(1)][0]
+                    steps = cn.mods.get(itv, [])
+                    pts = []  # (decl position, endpoint) of the pure locals that read through the iterator, in source order
+                    for vid, (v, bb, ii) in sorted(cn.decl.items(), key=lambda z: cn._pos(z[0])):
+                        init = cn.s(v.get("init")) if v.get("init") is not None else ""
+                        if cn.kind.get(vid) == "pure" and init.startswith("vertex(halfedge(*%s(" % m.group(1)):
+                            pts.append(((bb, ii), "from" if init.endswith(".from_vertex())") else "to"))
+                    ok = len(steps) == 1 and [e for p_, e in pts] == ["from", "to", "to"]
+                    if ok:
+                        sp = (steps[0][1], steps[0][2])
+                        ok = f.dominates(pts[0][0], sp) and f.dominates(pts[1][0], sp) and f.dominates(sp, pts[2][0])
+                    why = "points %s around %d increment(s)" % ([e for p_, e in pts], len(steps))
+            (ck.ok if ok else lambda r, w, t: ck.violate(r, w, t, "C19.geom:normal"))("C19.geom", f.where, "normal(hf) = ((p2-p1) x (p3-p2)).normalized() with p1,p2 the ends of the first and p3 the end of the second halfedge of the halfface (%s)" % why)
     ck.floor("geometry_queries", ng, 12)
 
 
